@@ -31,6 +31,24 @@ claim("C08", "proof",
       "utf8.DecodeRune modelled; characters = decoded runes.",
       "Rocq proof (loop invariant over consumed prefix) + extracted-model differential correspondence on generated lexers", "6 C08")
 
+LR_NOTE = ("Coq kernel (incl. vm_compute for the per-grammar validator obligations); Python translator from verifdump lr / compiled-table dump to "
+           "Gallina literals; hand-written Parse model tied by differential testing; text/template, Go compiler/runtime trusted; "
+           "'all grammars' = all grammars for the validator theorems, gocc tied grammar by grammar on each run's sample.")
+claim("C02", "proof",
+      "Coq theorems (Properties/C02.v): for EVERY grammar, tables and annotation passing the verified boolean validator, Parse (model of the "
+      "generated loop) returns a nil error only on sentences (Sound), accepts every sentence within tree-size+1 steps (Complete) and never "
+      "panics. On every run the validator is evaluated by the Coq kernel (vm_compute) on gocc's own item sets, FIRST sets and the tables "
+      "read back from the compiled parser for each conflict-free grammar of the run, which instantiates the theorems to gocc's output for all "
+      "token sequences; the compiled parser is also compared with the extracted model and with an independent Earley recogniser.",
+      LR_NOTE + " Termination on non-sentences: proved only when LR/ErrorPos.v is present; otherwise covered by the correspondence run (partial).",
+      "Rocq proof (LR soundness+completeness for validated tables) + kernel-evaluated translation validation of gocc's tables + differential correspondence", "6 C02")
+claim("C03", "proof",
+      "Coq theorems (Properties/C03.v): when Parse succeeds, value and action log are exactly the post-order evaluation of the actions over a "
+      "parse tree of the input (each action once per node, children's attributes in order, terminals carry the scanner's token object, default "
+      "= first attribute, empty = nil); a failing action ends the parse with that error and no further action. Same R/K ties as C02 with "
+      "logging actions using $i, $Ti, $Context and a chosen failing call; an implementation-only oracle checks log/result consistency.",
+      LR_NOTE, "Rocq proof (stack invariant carrying ghost trees and threaded evaluation) + translation validation + differential correspondence", "6 C03")
+
 ALL = ["C%02d" % i for i in range(1, 21)]
 NOT_YET = "framework under construction: check for this property not built yet (planned, see DESIGN.md section 6)"
 
